@@ -11,14 +11,18 @@ TRUSTED = [
     "the harness linearises its event log with one mutex (Add and cancel() are executed while holding it)",
 ]
 ASSUMPTIONS = [
-    "service / job / cleanup outcomes are one of ok, error, panic, blocks-until-cancel (then nil or error); ids are distinct per job/cleanup function",
+    "service / job / cleanup outcomes are one of ok, error, panic, blocks-until-cancel (then nil or error), or a control-valued error "
+    "(is / wraps io.EOF, context.Canceled, context.DeadlineExceeded, ErrIteratorSkip; ErrCurrentOpAbort behaves as an ordinary error); ids are distinct per job/cleanup function",
+    "pool_job_errors_surfaced holds except for control-valued errors of jobs of the plain WorkerPool (pool_job_errors_surfaced_refuted; "
+    "known finding C11:WorkerPool:control-error-dropped)",
     "Cleanup is modelled with timeout 0 (its internal context is never cancelled before all functions returned)",
 ]
 EXPLANATION = ("Theorems in coq/Props/C11.v are inductive invariants over every reachable state of four executable transition systems "
                "(Orchestrator run loop, Group, WorkerPool/HandlerWorkerPool, Cleanup) transcribed from srv/orchestrator.go and "
                "srv/implementations.go, for any number of services/jobs/workers, any outcome assignment and every interleaving of the "
                "modelled steps. The Go driver runs the real srv code under scripted scenarios (Add before start / while running / racing "
-               "cancel / after cancel; outcomes ok/err/panic/blocks), checks the property's oracles directly on the recorded event log and "
+               "cancel / after cancel; services fresh / running / finished / started by their owner while the orchestrator picks them up - also "
+               "placed exactly with the srv yield hooks; outcomes ok/err/panic/blocks/control-valued errors), checks the property's oracles directly on the recorded event log and "
                "prints the log as a Coq term; the model's executable acceptor must accept every log (vm_compute).")
 READY = True
 LEVEL_TEXT = ("Machine-checked Coq theorems (inductive invariants, unbounded services/jobs/workers, all interleavings of the modelled steps): "
